@@ -786,9 +786,114 @@ def _num_plan(tier):
     return shards
 
 
+# ----------------------------------------------------------------------------------------
+# re-used objects: a value object that is given a new text says what an object made from that text says
+
+REUSE_MENU = ['1.5em', '2', '150%', '0', '0px', '-.5', '+5', '1e3', '10deg', 'red', '#fff', '#aabbcc', 'rgb(1,2,3)', 'rgba(1,2,3,.5)', 'hsl(120,100%,50%)',
+              'url(a)', 'url("b c")', '"s"', "'t'", 'a', 'a b', '1px 2px', '1px/2px', 'a,b', 'calc(1px + 2%)', 'f(1)', 'U+1-FF', 'inherit', 'var(x)', '-x', '$']
+
+
+def _item_obs(it):
+    out = [type(it).__name__, it.cssText]
+    for name in ('type', 'value', 'dimension', 'uri', 'colorType', 'red', 'green', 'blue', 'alpha', 'name', 'fallback'):
+        try:
+            v = getattr(it, name)
+        except AttributeError:
+            continue
+        except Exception as e:
+            v = 'raises:' + type(e).__name__
+        out.append((name, v if isinstance(v, (str, int, float, type(None), bool)) else getattr(v, 'cssText', repr(type(v)))))
+    return out
+
+
+def _pv_obs(pv):
+    return [pv.cssText, pv.wellformed, len(pv), [_item_obs(x) for x in pv]]
+
+
+def _try(fn):
+    try:
+        return ('ok', _lib(fn))
+    except xml.dom.DOMException as e:
+        return ('dom', type(e).__name__)
+    except guard.Timeout:
+        return ('timeout', None)
+    except Exception as e:
+        return ('exc', guard.crash_site(e))
+
+
+def _reuse_case(res, i, j):
+    v1, v2 = REUSE_MENU[i], REUSE_MENU[j]
+    case = {'kind': 'reuse', 'first': v1, 'then': v2}
+    res.evaluations += 1
+    res.nontrivial += 1
+    res.clauses['C18.reuse'] += 1
+    guard.pristine()
+    first = _try(lambda: cssutils.css.PropertyValue(v1))
+    fresh = _try(lambda: _pv_obs(cssutils.css.PropertyValue(v2)))
+    if first[0] != 'ok' or fresh[0] in ('timeout', 'exc'):
+        return  # the families above judge single texts
+    pv = first[1]
+    before = _pv_obs(pv)
+
+    def setpv():
+        pv.cssText = v2
+        return _pv_obs(pv)
+
+    got = _try(setpv)
+    res.outcomes.add(h64(['reuse-pv', fresh[0], got[0]]))
+    if fresh[0] == 'ok' and fresh[1][1]:
+        if got != fresh:
+            res.violation('C18.reuse', 'property-value-given-a-new-text-differs-from-a-fresh-one|' + _reuse_sym(fresh, got), dict(case, level='PropertyValue'), fresh, got)
+    elif got[0] in ('timeout', 'exc'):
+        res.violation('C18.reuse', f'property-value|{got[0]}|{got[1]}', dict(case, level='PropertyValue'), fresh, got)
+    # the single component of the first value, given the new text itself
+    first = _try(lambda: cssutils.css.PropertyValue(v1))
+    if first[0] != 'ok' or len(first[1]) != 1:
+        return
+    pv = first[1]
+    it = pv[0]
+    cls = type(it)
+    fresh = _try(lambda: _item_obs(cls(v2)))
+    before = _item_obs(it)
+
+    def setit():
+        it.cssText = v2
+        return _item_obs(it)
+
+    got = _try(setit)
+    res.clauses['C18.reuse'] += 1
+    res.validated += 1
+    res.outcomes.add(h64(['reuse-item', cls.__name__, fresh[0], got[0]]))
+    c2 = dict(case, level=cls.__name__)
+    if fresh[0] == 'ok':
+        if got != fresh:
+            res.violation('C18.reuse', f'{cls.__name__}-given-a-new-text-differs-from-a-fresh-one|' + _reuse_sym(fresh, got), c2, fresh, got)
+    elif fresh[0] == 'dom':
+        # a text the class refuses: refused on the used object as well, which stays what it was
+        now = _try(lambda: _item_obs(it))
+        if got[0] == 'ok' or now != ('ok', before):
+            res.violation('C18.reuse', f'{cls.__name__}-refused-text-changes-the-object', c2, ['refused', before], [got, now])
+
+
+def _reuse_sym(fresh, got):
+    if got[0] != 'ok':
+        return 'raises:' + str(got[1])
+    a, b = fresh[1], got[1]
+    if isinstance(a, list) and len(a) == 4 and isinstance(a[3], list):  # PropertyValue observation
+        if a[0] != b[0]:
+            return 'text'
+        a, b = (a[3][0] if a[3] else []), (b[3][0] if b[3] else [])
+    names = [x[0] if isinstance(x, tuple) else 'text' for x, y in zip(a[1:], b[1:]) if x != y] if len(a) == len(b) else ['shape']
+    if a[:1] != b[:1]:
+        names.insert(0, 'class')
+    return '+'.join(names) or 'other'
+
+
 def plan(tier):
     q = tier == 'quick'
     shards = _num_plan(tier)
+    for i in range(len(REUSE_MENU)):
+        shards.append(['reuse', i])
     for a in HEXD:
         for b in HEXD:
             shards.append(['hash3', a + b])
@@ -856,7 +961,11 @@ def run_shard(shard, tier, seed):
     old = guard.signal.signal(guard.signal.SIGALRM, guard._alarm)
     try:
         kind = shard[0]
-        if kind == 'num-short':
+        if kind == 'reuse':
+            for j in range(len(REUSE_MENU)):
+                _reuse_case(res, shard[1], j)
+            res.sample({'kind': 'reuse', 'first': REUSE_MENU[shard[1]], 'then': REUSE_MENU[0]})
+        elif kind == 'num-short':
             _, sign, i, plen = shard
             fracs = [''] + [''.join(t) for n in range(1, plen) for t in itertools.product(DIGITS, repeat=n)]
             _run_numbers(res, sign, i, fracs, UNITS, rtmax, sheet_else)
@@ -963,7 +1072,9 @@ def replay(case, tier, seed):
     res = Result(seed)
     old = guard.signal.signal(guard.signal.SIGALRM, guard._alarm)
     try:
-        if case.get('table'):
+        if case.get('kind') == 'reuse':
+            _reuse_case(res, REUSE_MENU.index(case['first']), REUSE_MENU.index(case['then']))
+        elif case.get('table'):
             n = case['comps'][0][1]
             if n in cssutils.css.ColorValue.COLORS and n not in RN.KEYWORDS:
                 res.violation('C18.colour', 'keyword-not-in-CSS3', case, 'absent', repr(cssutils.css.ColorValue.COLORS[n]))
